@@ -340,13 +340,16 @@ func (s *State) callContract(spec *FuncSpec, callee *ssa.Function, c *ssa.CallCo
 			res.Terms = append(res.Terms, p.Terms...)
 		}
 	}
-	// postconditions
-	for _, cl := range spec.Ensures {
+	// postconditions (and naming clauses: "defines" introduces a name for the callee's result, assumed only)
+	for _, cl := range append(append([]*Clause(nil), spec.Ensures...), spec.Defines...) {
 		cl := cl
 		err := safeSpec(func() { s.assume(env.evalBool(cl.Expr)) })
 		if err != nil {
 			s.coll.specErr(s.eng, s.fn, cl, err)
 		}
+	}
+	for _, cl := range spec.Defines {
+		s.eng.assumptionsUsed["naming clause (assumed, not checked) on "+name+": "+cl.Src] = true
 	}
 	return res
 }
@@ -374,6 +377,18 @@ func unionProps(a, b []string) []string {
 func (e *Engine) funcTypeSpec(t types.Type) *FuncSpec {
 	n, ok := t.(*types.Named)
 	if !ok {
+		// unnamed function types: a contract may be attached to the signature text in any package ("type func(string) string")
+		if sig, isSig := t.Underlying().(*types.Signature); isSig {
+			key := "type " + types.TypeString(sig, func(p *types.Package) string { return p.Name() })
+			for pn := range e.typesPkgs {
+				if spec, ok := e.specs[pn+"."+key]; ok {
+					if spec.ftSig == nil {
+						spec.ftSig = sig
+					}
+					return spec
+				}
+			}
+		}
 		return nil
 	}
 	key := n.Obj().Pkg().Name() + ".type " + n.Obj().Name()
